@@ -43,10 +43,11 @@ def hSignProp (s : Inst) (client : String) (a : Addr) (d : PropData) (f : Faults
   if handlerRejects a then (s, ⟨.denied, none⟩)
   else let r := signProp s client a d.wire f sf; (r.1, respond r.2)
 
-def hSignGeneric (s : Inst) (client ip : String) (a : Addr) (d : SignData) (sf : Bool := false) : Inst × Pos :=
+def hSignGeneric (s : Inst) (client ip : String) (a : Addr) (d : SignData) (sf : Bool := false)
+    (lockStateFail : Bool := false) : Inst × Pos :=
   let a := a.wire
   if handlerRejects a then (s, ⟨.denied, none⟩)
-  else let r := signGeneric s client ip a d.wire sf; (r.1, respond r.2)
+  else let r := signGeneric s client ip a d.wire sf lockStateFail; (r.1, respond r.2)
 
 /-- batch validation: the first entry that fails identification is DENIED, the others stay UNKNOWN -/
 def firstRejected (as : List Addr) : Option Nat := as.findIdx? handlerRejects
@@ -63,11 +64,12 @@ def hSignAtts (s : Inst) (client : String) (items : List (Addr × AttData)) (f :
 def firstRejectedSign (items : List (Addr × SignData)) : Option Nat :=
   items.findIdx? (fun it => handlerRejects it.1 || it.2.data.isNone || it.2.domain.isNone)
 
-def hMultisign (s : Inst) (client ip : String) (items : List (Addr × SignData)) (sf : List Nat := []) : Inst × List Pos :=
+def hMultisign (s : Inst) (client ip : String) (items : List (Addr × SignData)) (sf : List Nat := [])
+    (lockStateFail : Bool := false) : Inst × List Pos :=
   let items := items.map (fun it => (it.1.wire, it.2.wire))
   if items.isEmpty then (s, [⟨.denied, none⟩]) else
   match firstRejectedSign items with
   | some i => (s, (List.range items.length).map (fun j => if j = i then ⟨.denied, none⟩ else ⟨.unknown, none⟩))
-  | none => let r := multisign s client ip items sf; (r.1, r.2.map respond)
+  | none => let r := multisign s client ip items sf lockStateFail; (r.1, r.2.map respond)
 
 end Dirk
